@@ -100,6 +100,11 @@ def instance_dispatch(e):
         if f.module.name == CW and {v[1] for v in e.pt.ev(f, call.func) if v[0] == "class"} & wq:
             if any(isinstance(t, ast.Call) and norm(t.func) == "callable" for t in func_nodes(f)):
                 c.add(f.qualname)
+    if not c:
+        # no constructor site tests callable() any more: the (unique) function that constructs instance wrappers is still the dispatch
+        for f, call in e.all_calls():
+            if f.module.name == CW and f.cls is None and f.kind != "module" and {v[1] for v in e.pt.ev(f, call.func) if v[0] == "class"} & wq:
+                c.add(f.qualname)
     if len(c) != 1:
         raise AnalysisError(f"wrapper dispatch on callable(obj) not unique: {sorted(c)}")
     return e.prog.funcs[c.pop()]
@@ -246,8 +251,10 @@ def r_reducers_flow(e, R):
     R.check(okd, "R-REDUCERS-FLOW", "constructor: result reducers default to the job reducers", init.short, "if result_reducers is None: result_reducers = job_reducers",
             "results are no longer pickled with the job reducers when no result reducers are given", e.loc(init, init.node))
     # setup: job reducers -> call queue, result reducers -> result queue, through every override
-    setups = [f for f in e.prog.funcs.values() if f.node is not None and getattr(f.node, "name", "") == "_setup_queues"]
-    base = [f for f in setups if f.cls is not None and f.cls.qualname == a.executor_cls]
+    # the set-up routine: the method of the executor class in which the call queue object is allocated (and its overrides)
+    cq_alloc = {a.alloc_func(o) for o in a.callq}
+    base = [e.prog.funcs[q] for q in cq_alloc if q in e.prog.funcs and e.prog.funcs[q].cls is not None and e.prog.funcs[q].cls.qualname == a.executor_cls]
+    setups = [f for f in e.prog.funcs.values() if f.node is not None and base and getattr(f.node, "name", "") == base[0].node.name]
     if not base:
         raise AnalysisError("executor queue set-up routine not found")
     sf = base[0]
